@@ -212,7 +212,8 @@ def check_request_path(run, ctx, P, out, pre):
                 args_ok.append(b2(False))
             replaced = i > 0
             if kind == "cached_m":
-                args_ok.append(b2(isinstance(m, MetaVal)) if not isinstance(m, MetaVal) else (m.ident == (z3.IntVal(77) if replaced else mid)))
+                seen = z3.If(z3.Bool("n1_doc_lossyM"), mid + LOSSY_SHIFT, mid) if LOSSY["on"] else mid      # what M sees of the stored table
+                args_ok.append(b2(isinstance(m, MetaVal)) if not isinstance(m, MetaVal) else (m.ident == (z3.IntVal(77) if replaced else seen)))
             else:
                 if isinstance(m, Adt) and m.variant == "Some":
                     tv = deref(m.fields[0]).data
@@ -305,6 +306,8 @@ def render_toml(m, ctx, prefix, generic):
         mid = m.int(z3.Int(f"{prefix}_mid"))
         if g("okM"):
             out.append(f'v = "id{mid}"')
+            if LOSSY["on"] and g("lossyM"):
+                out.append("extra = 1")       # a key the buildpack's M does not name (M tolerates unknown keys)
         else:
             out.append(f'w = {abs(mid)}')
     return "\n".join(out) + "\n"
@@ -316,7 +319,7 @@ def model_terms(ctx):
         p = lu.name
         ts += [z3.Int(f"{p}_dir"), z3.Int(f"{p}_toml")] + [z3.Int(f"{p}_sbom_{f}") for f in SBOM_EXT]
         ts += [z3.Bool(f"{p}_doc_{n}") for n in ("syntax_ok", "has_types", "has_meta", "okM", "has_unknown_key", "launch", "build", "cache")]
-        ts += [z3.Int(f"{p}_doc_mid")]
+        ts += [z3.Int(f"{p}_doc_mid"), z3.Bool(f"{p}_doc_lossyM")]
         for path in lu.inner:
             nm = path[len(L) + 1:].replace("/", "_").replace(".", "_")
             ts.append(z3.Int(f"k_{nm}"))
@@ -342,7 +345,16 @@ def scenario_of(ctx, m):
             elif k == FILE:
                 tree.append({"path": path[1:], "kind": "file", "content": "old:" + nm})
     answers = [f"{getattr(ctx, 'form', 'RP')}/{l[2]}" for l in ctx.log]
-    return {"op": "layer-struct", "request": ctx.req_kind, "launch": m.bool(z3.Bool("req_launch")), "build": m.bool(z3.Bool("req_build")),
+    expect_meta = None
+    if m.int(z3.Int("n1_toml")) == FILE and m.bool(z3.Bool("n1_doc_syntax_ok")) and m.bool(z3.Bool("n1_doc_has_meta")):
+        mid = m.int(z3.Int("n1_doc_mid"))
+        if m.bool(z3.Bool("n1_doc_okM")):
+            expect_meta = {"v": f"id{mid}"}
+            if LOSSY["on"] and m.bool(z3.Bool("n1_doc_lossyM")):
+                expect_meta["extra"] = 1
+        else:
+            expect_meta = {"w": abs(mid)}
+    return {"op": "layer-struct", "stored_metadata": expect_meta, "request": ctx.req_kind, "launch": m.bool(z3.Bool("req_launch")), "build": m.bool(z3.Bool("req_build")),
             "answers": answers, "tree": tree, "writers": getattr(ctx, "writers_scn", [])}
 
 
@@ -392,11 +404,14 @@ def confirm(cname, ctx, real, scn):
         return not (t.get("launch") == scn["launch"] and t.get("build") == scn["build"] and t.get("cache") == (scn["request"] != "uncached"))
     if cname == "empty-has-no-metadata":
         return bool((real.get("toml") or {}).get("metadata"))
+    if cname == "restored-keeps-metadata" and not any(a.endswith("/Replace") for a in scn["answers"]):
+        return ((real.get("toml") or {}).get("metadata") or None) != (scn.get("stored_metadata") or None)
     return True    # the remaining clauses are compared through the predicted observables (kinds/result/log) above
 
 
 SHARDS = {"quick": 12, "thorough": 14}
 CRATES = ["libcnb", "libcnb-common", "libcnb-data"]
+LOSSY = {"on": False}      # switched on by C01's own main only (C12/C20/C02 reuse the scenario code with a lossless M)
 
 
 def prepare(run):
@@ -409,7 +424,8 @@ def main(run):
                   "histories": "one inductive step from any state satisfying the layer invariant (covers any length)",
                   "handle_layer recursion": "<= 2 (ReplaceMetadata), checked", "callback forms": FORMS}
     run.assumptions = ["layer invariant: <layers>/n absent or a directory; n.toml / n.sbom.* absent or regular files; SBOM files only next to an existing dir",
-                       "metadata law: from_str(to_string(m)) == Ok(m) for the buildpack's metadata type M",
+                       "metadata law: from_str(to_string(m)) == Ok(m) for the buildpack's metadata type M; M may ignore keys of a stored table (what the "
+                       "callbacks see is a projection of it), so a layer kept through M-typed code paths is distinguishable from one whose table was left alone",
                        "file-system model mirsym/summ_fs.py (no permission faults here; C11 covers modes and symlinks)",
                        "toml text layer abstracted to trees; derived serde impls executed from MIR"]
     run.outside = ["toml crate's text<->tree step", "permission bits and symlinks (C11)", "I/O faults (C12)"]
@@ -421,7 +437,8 @@ def main(run):
         if len(ks) != 1:
             raise Inconclusive(f"BuildContext::{nm} not found uniquely in MIR")
         fns[nm] = ks[0]
-    P.type_hooks["UserM"] = MHook(False)
+    P.type_hooks["UserM"] = MHook(False, lossy=True)
+    LOSSY["on"] = True
 
     def entry(ctx):
         ctx.pre = snapshot_pre(ctx)
